@@ -429,7 +429,60 @@ def _observe(item):
     return st, {k: v[:2] for k, v in viols.items()}
 
 
+# ---------------------------------------------------------------------------------------------------
+# the lists the UI gets: command description and entry units of a process value, built by the UOD from the pattern
+
+UOD_TAG_UNITS = ("L/h", "s", "kg", None)
+UOD_UNIT_LISTS = (("L/min", "L/h", "%"), ("CV", "s"), ("L",), ("kg", "g"), ("L/h",), ("%", "L/h", "s"))
+
+
+def uod_lists(tag_unit, units, optional=False):
+    """-> (units in the command description, entry units of the process value) for a command with a RegexNumber pattern that is the
+    entry command of a process value whose tag has `tag_unit`"""
+    from openpectus.lang.exec.regex import RegexNumber, RegexNumberOptional
+    from openpectus.lang.exec.tags import Tag, create_system_tags
+    from openpectus.lang.exec.uod import UodBuilder, UodCommand
+
+    def ex(cmd: UodCommand, number, number_unit=None, **kw):
+        cmd.set_complete()
+    rx = (RegexNumberOptional if optional else RegexNumber)(units=list(units))
+    uod = (UodBuilder().with_instrument("i").with_author("a", "a@b.c").with_filename(__file__).with_hardware_none().with_location("l")
+           .with_tag(Tag("PV", value=1.0, unit=tag_unit))
+           .with_command_regex_arguments("PV", rx, ex)
+           .with_process_value_entry("PV")).build()
+    uod.system_tags = create_system_tags()
+    uod.validate_configuration()
+    uod.build_commands()
+    reading = [r for r in uod.readings if r.tag_name == "PV"][0]
+    return list(uod.command_descriptions["PV"].argument_valid_units), list(reading.valid_value_units or [])
+
+
+def check_uod_lists(tag_unit, units, optional):
+    import logging
+    logging.disable(logging.CRITICAL)
+    out = []
+    try:
+        desc, entry = uod_lists(tag_unit, units, optional)
+    except BaseException as e:          # noqa: BLE001 (validate_configuration ends with SystemExit on a rejected UOD)
+        return [(f"C22:uod-lists:raise:{type(e).__name__}", f"UOD with tag unit {tag_unit!r} and pattern units {list(units)} could not be built: {e}")]
+    kind = "RegexNumberOptional" if optional else "RegexNumber"
+    if desc != list(units):
+        out.append((f"C22:uod-lists:command-description:tag-unit={tag_unit}", f"{kind}(units={list(units)}) as entry command of a process value with "
+                    f"tag unit {tag_unit!r}: the command description lists units {desc}"))
+    if entry != list(units):
+        out.append((f"C22:uod-lists:entry-units:tag-unit={tag_unit}", f"{kind}(units={list(units)}) as entry command of a process value with "
+                    f"tag unit {tag_unit!r}: the process value's entry units are {entry}"))
+    return out
+
+
 def run(ctx):
+    n_uod = 0
+    for tu in UOD_TAG_UNITS:
+        for units in UOD_UNIT_LISTS:
+            for optional in (False,) if len(units) > 1 else (False, True):
+                n_uod += 1
+                for sig, what in check_uod_lists(tu, units, optional):
+                    ctx.violation(sig, what, {"uod": [tu, list(units), optional]})
     k_max, max_tokens = (2, 3) if ctx.quick else (3, 4)
     specs = all_specs(k_max)
     items = [(sp, max_tokens) for sp in specs]
@@ -462,6 +515,7 @@ def run(ctx):
              f"out-of-language={tot[REJECT]} (near-miss {tot['near_miss']}) implementation-accepts={tot['impl_accepts']}")
     samples = [payload(("num", ("kg",), True, False), "1 kg"), payload(("num", ("L/h", "%"), False, True), "-23%"),
                payload(("cat", ("A",), ("B", "x+y")), "B+x+y"), payload(("cat", (), ("A", "B")), "AB")]
+    ctx.coverage.update(uod_built_unit_list_cases=n_uod)
     ctx.coverage.update(
         evaluations=tot["pairs"], distinct_nontrivial=tot[ACCEPT],
         rule="every (pattern, candidate string) pair: patterns = all lists of <= max_items distinct ITEMS as units (x non_negative x "
@@ -489,6 +543,11 @@ def run(ctx):
 
 
 def replay(data):
+    if "uod" in data:
+        tu, units, optional = data["uod"]
+        out = check_uod_lists(tu, tuple(units), optional)
+        print("tag unit", tu, "pattern units", units, "optional", optional, "->", out or "as declared")
+        return out
     spec = spec_from_payload(data)
     parser = build_parser(spec)
     print(spec_str(spec))
